@@ -172,9 +172,18 @@ def wmedSlack (pre : Bool) (sp : List (Rat × Rat)) : Rat :=
   let s2 := (cums.map (fun c => min (absQ (c - (mid - tol))) (absQ (c - (mid + tol))))).foldl min tot
   (min s1 s2) / tot
 
+/-- transport of a model value: exact when short, else truncated to a multiple of 2⁻²⁰⁰
+    (exact iteration results have thousands of digits) -/
+def ratT (q : Rat) : Json :=
+  if q.den < 2 ^ 256 then ratJ q else ratJ ((q * (2 ^ 200 : Nat)).floor / ((2 ^ 200 : Nat) : Rat))
+
+def optRatT : Option Rat → Json
+  | none => Json.null
+  | some q => ratT q
+
 def scaleOutJ : ScaleOut → Json
-  | .direct v => obj [("kind", strJ "direct"), ("v", ratJ v)]
-  | .root v => obj [("kind", strJ "root"), ("v", ratJ v)]
+  | .direct v => obj [("kind", strJ "direct"), ("v", ratT v)]
+  | .root v => obj [("kind", strJ "root"), ("v", ratT v)]
   | .undefined => obj [("kind", strJ "undefined")]
 
 def errJ (e : String) : Json := obj [("error", strJ e)]
@@ -202,7 +211,7 @@ def handleDescriptives (op : String) (inp : Json) (impl : Option Json) : R (Opti
     -- model
     let (outJ, slack, extraErr) ← (match name with
       | "biweight_location" =>
-        pure (optRatJ (biweightLocation a initial pre),
+        pure (optRatT (biweightLocation a initial pre),
               (if clean.length ≥ 2 then bilocSlack pre clean initial else 1), ([] : List String))
       | "modal_location" => do
         if clean.length ≤ 1 then pure (optRatJ (onArray none (fun _ => none) a), (1 : Rat), [])
@@ -225,7 +234,7 @@ def handleDescriptives (op : String) (inp : Json) (impl : Option Json) : R (Opti
         else
           let order ← getList getNat (← fld inp "order")
           let okOrder := validOrder order (p.map (·.1)) 0
-          pure (ratJ (weightedMedianCore pre order p), wmedSlack pre (permute order p),
+          pure (ratT (weightedMedianCore pre order p), wmedSlack pre (permute order p),
                 if okOrder then [] else ["argsort_contract"])
       | _ => throw s!"unknown location estimator {name}")
     -- spec on the implementation's answers
@@ -279,7 +288,7 @@ def handleDescriptives (op : String) (inp : Json) (impl : Option Json) : R (Opti
                  else [])
               else []))
         pure (clausesJ (clauses ++ extraErr)))
-    pure (some (obj [("out", outJ), ("slack", ratJ slack), ("spec", spec)]))
+    pure (some (obj [("out", outJ), ("slack", ratT slack), ("spec", spec)]))
   | "scale" =>
     let name ← getStr (← fld inp "name")
     let a ← getOptRatList (← fld inp "a")
@@ -383,7 +392,7 @@ def handleDescriptives (op : String) (inp : Json) (impl : Option Json) : R (Opti
                  | _ => [])
               else []))
         pure (clausesJ (clauses ++ extraErr)))
-    pure (some (obj [("out", outJ), ("slack", ratJ slack), ("spec", spec)]))
+    pure (some (obj [("out", outJ), ("slack", ratT slack), ("spec", spec)]))
   | "smooth" =>
     let name ← getStr (← fld inp "name")
     let x ← getList getRat (← fld inp "x")
@@ -395,7 +404,7 @@ def handleDescriptives (op : String) (inp : Json) (impl : Option Json) : R (Opti
     let nIter ← optFldD inp "n_iter" getNat 1
     let w ← optFldD inp "w" (getList getRat) []
     let n := x.length
-    let okJ (l : List Rat) : Json := arrJ (l.map ratJ)
+    let okJ (l : List Rat) : Json := arrJ (l.map ratT)
     let geom : Json := match savgolGeometry n width ww order nIter with
       | .ok (a, b, c, d) => arrJ [natJ a, natJ b, natJ c, natJ d]
       | .error _ => Json.null
@@ -429,7 +438,7 @@ def handleDescriptives (op : String) (inp : Json) (impl : Option Json) : R (Opti
         else
           if w.length ≠ n then throw "weights length"
           pure (match savgolWeighted x w width ww order nIter window with
-            | .ok l => arrJ (l.map optRatJ)
+            | .ok l => arrJ (l.map optRatT)
             | .error e => wingErrJ e)
       | _ => throw s!"unknown smoother {name}")
     let spec ← (match impl with
